@@ -181,8 +181,15 @@ void vf::run_case(Src &s, Ctx &c)
             {
                 double e = slack(d, 2, mag);
                 c.stat("symmetry-gap", std::fabs(D[i][j] - D[j][i]));
-                VCHECK(c, std::fabs(D[i][j] - D[j][i]) <= e, familyKey(d, "symmetry"), "%s: d(a,b)=%.17g, d(b,a)=%.17g", d.name().c_str(), D[i][j],
-                       D[j][i]);
+                if (!(std::fabs(D[i][j] - D[j][i]) <= e))
+                {
+                    // Reeds-Shepp known finding: for poses closer than 5% of the turning radius the solver's answer depends on the
+                    // direction (it misses the short curve one way). Keyed separately so that asymmetry between ordinary poses stays loud.
+                    std::string key = familyKey(d, "symmetry");
+                    if (d.kind == REEDSSHEPP && std::min(D[i][j], D[j][i]) < 0.05 * d.p1)
+                        key += "(poses-closer-than-0.05-rho)";
+                    c.failOrKnown(key, vf::fmt("%s: d(a,b)=%.17g, d(b,a)=%.17g", d.name().c_str(), D[i][j], D[j][i]));
+                }
             }
     if (sp->isMetricSpace())
     {
@@ -192,8 +199,11 @@ void vf::run_case(Src &s, Ctx &c)
             int j = (i + 1) % 3, k = (i + 2) % 3;
             double excess = D[i][k] - (D[i][j] + D[j][k]);
             c.stat(std::string("triangle-excess:") + (d.contains(SO3) ? "withSO3" : coarse ? "coarse" : "plain"), excess);
+            std::string tkey = familyKey(d, "triangle");
+            if (d.kind == REEDSSHEPP && std::min({D[i][j], D[j][k], D[i][k]}) < 0.05 * d.p1)
+                tkey += "(poses-closer-than-0.05-rho)";  // same known root cause as the symmetry key
             if (!(excess <= e))
-                c.failOrKnown(familyKey(d, "triangle"), vf::fmt("%s claims isMetricSpace() but d(a,c)=%.17g > d(a,b)+d(b,c)=%.17g+%.17g (excess %.3g)",
+                c.failOrKnown(tkey, vf::fmt("%s claims isMetricSpace() but d(a,c)=%.17g > d(a,b)+d(b,c)=%.17g+%.17g (excess %.3g)",
                                                                 d.name().c_str(), D[i][k], D[i][j], D[j][k], excess));
         }
         c.count("metric-claimed");
